@@ -213,6 +213,8 @@ impl DbInner {
 			.write(true)
 			.open(lock_path.as_path()));
 		lock_file.try_lock_exclusive().map_err(Error::Locked)?;
+		#[cfg(parity_db_verif)]
+		crate::verif::emit("Locked", &[]);
 
 		let metadata = options.load_and_validate_metadata(opening_mode == OpeningMode::Create)?;
 		let mut columns = Vec::with_capacity(metadata.columns.len());
@@ -638,13 +640,19 @@ impl DbInner {
 		#[cfg(not(any(test, feature = "instrumentation")))]
 		let might_wait_because_the_queue_is_full = true;
 		if might_wait_because_the_queue_is_full && queue.bytes > MAX_COMMIT_QUEUE_BYTES {
+			#[cfg(parity_db_verif)]
+			crate::verif::emit("CommitFullPark", &[queue.bytes as u64]);
 			log::debug!(target: "parity-db", "Waiting, queue size={}", queue.bytes);
 			self.commit_queue_full_cv.wait(&mut queue);
+			#[cfg(parity_db_verif)]
+			crate::verif::emit("CommitFullWake", &[queue.bytes as u64]);
 		}
 
 		{
 			let bg_err = self.bg_err.lock();
 			if let Some(err) = &*bg_err {
+				#[cfg(parity_db_verif)]
+				crate::verif::emit("CommitErr", &[]);
 				return Err(Error::Background(err.clone()))
 			}
 		}
@@ -683,6 +691,8 @@ impl DbInner {
 		);
 		queue.commits.push_back(commit);
 		queue.bytes += bytes;
+		#[cfg(parity_db_verif)]
+		crate::verif::emit("CommitLin", &[record_id, queue.bytes as u64]);
 		self.log_worker_wait.signal();
 		Ok(())
 	}
@@ -750,6 +760,8 @@ impl DbInner {
 		);
 		queue.commits.push_back(commit);
 		queue.bytes += bytes;
+		#[cfg(parity_db_verif)]
+		crate::verif::emit("Defer", &[old_id, record_id]);
 		Ok(())
 	}
 
@@ -762,14 +774,20 @@ impl DbInner {
 			// Wait if the queue is full.
 			let mut queue = self.log_queue_wait.work.lock();
 			if !self.shutdown.load(Ordering::Relaxed) && *queue > MAX_LOG_QUEUE_BYTES {
+				#[cfg(parity_db_verif)]
+				crate::verif::emit("LogThrottlePark", &[*queue as u64]);
 				log::debug!(target: "parity-db", "Waiting, log_bytes={}", queue);
 				self.log_queue_wait.cv.wait(&mut queue);
+				#[cfg(parity_db_verif)]
+				crate::verif::emit("LogThrottleWake", &[*queue as u64]);
 			}
 		}
 		let commit = {
 			let mut queue = self.commit_queue.lock();
 			if let Some(commit) = queue.commits.pop_front() {
 				queue.bytes -= commit.bytes;
+				#[cfg(parity_db_verif)]
+				crate::verif::emit("Pop", &[commit.id, queue.bytes as u64]);
 				log::debug!(
 					target: "parity-db",
 					"Removed {}. Still queued commits {} bytes",
@@ -868,6 +886,8 @@ impl DbInner {
 
 			let mut reindex = false;
 			let mut writer = self.log.begin_record();
+			#[cfg(parity_db_verif)]
+			crate::verif::emit("BeginRecord", &[writer.record_id(), commit.id]);
 			log::debug!(
 				target: "parity-db",
 				"Processing commit {}, record {}, {} bytes",
@@ -923,6 +943,8 @@ impl DbInner {
 				for (c, iterset) in commit.changeset.btree_indexed.iter_mut() {
 					iterset.clean_overlay(&mut overlay[*c as usize].btree_indexed, commit.id);
 				}
+				#[cfg(parity_db_verif)]
+				crate::verif::emit("CleanCovl", &[commit.id, record_id]);
 			}
 
 			if reindex {
@@ -976,6 +998,8 @@ impl DbInner {
 					"Creating reindex record {}",
 					writer.record_id(),
 				);
+				#[cfg(parity_db_verif)]
+				crate::verif::emit("ReindexRecord", &[writer.record_id(), batch.len() as u64, drop_index.is_some() as u64]);
 				for (key, address) in batch.into_iter() {
 					if let PlanOutcome::NeedReindex =
 						column.write_reindex_plan(&key, address, &mut writer)?
@@ -1015,6 +1039,8 @@ impl DbInner {
 					"Creating ref count reindex record {}",
 					writer.record_id(),
 				);
+				#[cfg(parity_db_verif)]
+				crate::verif::emit("RcReindexRecord", &[writer.record_id(), ref_count_batch.len() as u64, drop_ref_count.is_some() as u64]);
 				for (address, ref_count) in ref_count_batch.into_iter() {
 					if let PlanOutcome::NeedReindex = column.write_ref_count_reindex_plan(
 						address,
@@ -1069,6 +1095,8 @@ impl DbInner {
 					"Enacting log record {}",
 					reader.record_id(),
 				);
+				#[cfg(parity_db_verif)]
+				crate::verif::emit("EnactBegin", &[reader.record_id(), validation_mode as u64]);
 				if validation_mode {
 					if reader.record_id() != self.last_enacted.load(Ordering::Relaxed) + 1 {
 						log::warn!(
@@ -1154,6 +1182,8 @@ impl DbInner {
 					}
 					reader.reset()?;
 					reader.next()?;
+					#[cfg(parity_db_verif)]
+					crate::verif::emit("Validated", &[reader.record_id()]);
 				}
 				loop {
 					match reader.next()? {
@@ -1214,6 +1244,8 @@ impl DbInner {
 				let bytes = reader.read_bytes();
 				let cleared = reader.drain();
 				self.last_enacted.store(record_id, Ordering::SeqCst);
+				#[cfg(parity_db_verif)]
+				crate::verif::emit("EnactEnd", &[record_id, validation_mode as u64]);
 				Some((record_id, cleared, bytes))
 			} else {
 				log::debug!(target: "parity-db", "End of log");
@@ -1250,6 +1282,8 @@ impl DbInner {
 				if !validation_mode {
 					while self.log.num_dirty_logs() > max_logs {
 						log::debug!(target: "parity-db", "Waiting for log cleanup. Queued: {}", dirty_logs);
+						#[cfg(parity_db_verif)]
+						crate::verif::emit("EnactCleanupWait", &[dirty_logs as u64]);
 						self.cleanup_queue_wait.wait();
 					}
 				}
@@ -1276,6 +1310,8 @@ impl DbInner {
 				for c in self.columns.iter() {
 					c.flush()?;
 				}
+				#[cfg(parity_db_verif)]
+				crate::verif::emit("TablesFlushed", &[num_cleanup as u64]);
 			}
 			self.log.clean_logs(num_cleanup - keep_logs)?
 		} else {
@@ -1289,6 +1325,8 @@ impl DbInner {
 		for c in self.columns.iter() {
 			c.flush()?;
 		}
+		#[cfg(parity_db_verif)]
+		crate::verif::emit("TablesFlushed", &[self.log.num_dirty_logs() as u64]);
 		let num_cleanup = self.log.num_dirty_logs();
 		self.log.clean_logs(num_cleanup)?;
 		Ok(())
@@ -1310,7 +1348,11 @@ impl DbInner {
 
 	fn shutdown(&self) {
 		self.shutdown.store(true, Ordering::SeqCst);
+		#[cfg(parity_db_verif)]
+		crate::verif::emit("Shutdown", &[]);
 		self.log_queue_wait.cv.notify_one();
+		#[cfg(parity_db_verif)]
+		crate::verif::emit("ShutdownNotified", &[]);
 		self.flush_worker_wait.signal();
 		self.log_worker_wait.signal();
 		self.commit_worker_wait.signal();
@@ -1385,9 +1427,13 @@ impl DbInner {
 			let mut err = self.bg_err.lock();
 			if err.is_none() {
 				*err = Some(Arc::new(e));
+				#[cfg(parity_db_verif)]
+				crate::verif::emit("StoreErr", &[]);
 				self.shutdown();
 			}
 			self.commit_queue_full_cv.notify_all();
+			#[cfg(parity_db_verif)]
+			crate::verif::emit("StoreErrNotified", &[]);
 		}
 	}
 
@@ -1599,7 +1645,11 @@ impl Db {
 			}
 
 			more_work = db.enact_logs(false)?;
+			#[cfg(parity_db_verif)]
+			crate::verif::emit("WorkerLoopEnd", &[3, more_work as u64]);
 		}
+		#[cfg(parity_db_verif)]
+		crate::verif::emit("WorkerExit", &[3]);
 		log::debug!(target: "parity-db", "Commit worker shutdown");
 		Ok(())
 	}
@@ -1616,7 +1666,11 @@ impl Db {
 
 			more_commits = db.process_commits(&db)?;
 			more_reindex = db.process_reindex()?;
+			#[cfg(parity_db_verif)]
+			crate::verif::emit("WorkerLoopEnd", &[1, more_commits as u64, more_reindex as u64]);
 		}
+		#[cfg(parity_db_verif)]
+		crate::verif::emit("WorkerExit", &[1]);
 		log::debug!(target: "parity-db", "Log worker shutdown");
 		Ok(())
 	}
@@ -1628,7 +1682,11 @@ impl Db {
 				db.flush_worker_wait.wait();
 			}
 			more_work = db.flush_logs(min_log_size)?;
+			#[cfg(parity_db_verif)]
+			crate::verif::emit("WorkerLoopEnd", &[2, more_work as u64]);
 		}
+		#[cfg(parity_db_verif)]
+		crate::verif::emit("WorkerExit", &[2]);
 		log::debug!(target: "parity-db", "Flush worker shutdown");
 		Ok(())
 	}
@@ -1640,7 +1698,11 @@ impl Db {
 				db.cleanup_worker_wait.wait();
 			}
 			more_work = db.clean_logs()?;
+			#[cfg(parity_db_verif)]
+			crate::verif::emit("WorkerLoopEnd", &[4, more_work as u64]);
 		}
+		#[cfg(parity_db_verif)]
+		crate::verif::emit("WorkerExit", &[4]);
 		log::debug!(target: "parity-db", "Cleanup worker shutdown");
 		Ok(())
 	}
@@ -1814,6 +1876,8 @@ impl Db {
 		if let Err(e) = self.inner.kill_logs(&self.inner) {
 			log::warn!(target: "parity-db", "Shutdown error: {:?}", e);
 		}
+		#[cfg(parity_db_verif)]
+		crate::verif::emit("Unlocking", &[]);
 		if let Err(e) = self.inner.lock_file.unlock() {
 			log::debug!(target: "parity-db", "Error removing file lock: {:?}", e);
 		}
